@@ -64,7 +64,7 @@ impl Report {
     pub fn violation(&mut self, property: &str, key: String, what: String, replay: Value) {
         let c = self.violation_keys.entry(format!("{}|{}", property, key)).or_insert(0);
         *c += 1;
-        if *c <= self.max_violations_per_key && self.violations.len() < 200 {
+        if *c <= self.max_violations_per_key && self.violations.len() < 20000 {
             self.violations.push(Violation {
                 property: property.to_string(),
                 key,
